@@ -63,10 +63,15 @@ def peers(tier):
         'repeat-family-enc': dict(kex=['curve25519-sha256'], key=['ssh-ed25519'], enc=['aes128-cbc', 'aes192-cbc', 'aes256-cbc', 'aes128-cbc', '3des-cbc'], mac=['hmac-sha2-256-etm@openssh.com', 'hmac-sha2-256'], banner=b'SSH-2.0-OpenSSH_8.9p1'),
         'repeat-family-mac-kex': dict(kex=['ecdh-sha2-nistp256', 'ecdh-sha2-nistp384', 'ecdh-sha2-nistp521', 'ecdh-sha2-nistp384'], key=['ssh-ed25519', 'ssh-ed25519'], enc=['aes256-ctr'],
                                       mac=['hmac-sha2-256-etm@openssh.com', 'hmac-sha2-512-etm@openssh.com', 'hmac-sha2-256-etm@openssh.com', 'hmac-sha1', 'hmac-sha1-96'], banner=b'SSH-2.0-OpenSSH_8.9p1'),
+        # one group-exchange probe connection is accepted and closed without an identification string (a busy server): whatever the verbosity
+        'probe-closed-gex': dict(kex=['curve25519-sha256', 'diffie-hellman-group-exchange-sha256'], key=['ssh-ed25519'], enc=['aes256-ctr'], mac=['hmac-sha2-256'], banner=b'SSH-2.0-OpenSSH_8.9p1',
+                                 gex=[2048, 4096], label='pf', faults={('pf', 3, 0): ('trunc_close', 0)}),
+        'probe-closed-hostkey': dict(kex=['curve25519-sha256'], key=['rsa-sha2-512', 'ssh-ed25519'], enc=['aes256-ctr'], mac=['hmac-sha2-256'], banner=b'SSH-2.0-OpenSSH_8.9p1',
+                                     rsa_bits=2048, label='pf', faults={('pf', 2, 0): ('trunc_close', 0)}),
         'nonascii-banner': dict(kex=['curve25519-sha256'], key=['ssh-ed25519'], enc=['aes256-ctr'], mac=['hmac-sha2-256'], banner=b'SSH-2.0-Frob\x80SSH'),
     }
     if tier == 'quick':
-        keep = ['clean', 'warn-only', 'fail-mixed', 'terrapin', 'unknown', 'gss', 'rsa2048', 'gex1024', 'ssh1', 'header', 'cert', 'nonascii-banner', 'strict-kex-multi', 'client-role', 'asym', 'asym-clean-s2c', 'probe-fault-rsa1024', 'probe-fault-rsa2048', 'cert-sha2-warn', 'cert-sha2-ca-warn', 'repeat-family-enc', 'repeat-family-mac-kex']
+        keep = ['clean', 'warn-only', 'fail-mixed', 'terrapin', 'unknown', 'gss', 'rsa2048', 'gex1024', 'ssh1', 'header', 'cert', 'nonascii-banner', 'strict-kex-multi', 'client-role', 'asym', 'asym-clean-s2c', 'probe-fault-rsa1024', 'probe-fault-rsa2048', 'cert-sha2-warn', 'cert-sha2-ca-warn', 'repeat-family-enc', 'repeat-family-mac-kex', 'probe-closed-gex', 'probe-closed-hostkey']
         ps = {k: ps[k] for k in keep}
     else:
         # every severity mix of the database per category as extra peers
